@@ -6,6 +6,12 @@ checks the design-level statement on the table itself.  Every enumerated case th
 the REAL code, executed by `dv-funcs <sub-command>`; the observation is compared with TLC's expectation.
 
   C34  spec/Config.tla       dv-funcs config   RaftConfig::validate / RaftNodeConfig::validate
+  C37  spec/ClientCodec.tla  dv-funcs codec    embedded client + GrpcClient -> real single-node engine -> Command at apply_chunk
+  C35  spec/ClientCodec.tla  dv-funcs mget     multi-key reads through both clients against File / RocksDB state machines
+  C36  spec/MergeAE.tla      dv-funcs merge    real merge_append_entries + follower workflow vs one request at a time
+  C13  spec/ReadRoute.tla    dv-funcs route    Raft command path on simulated nodes, embedded / gRPC paths on a loopback cluster
+
+Binding self-test: VERIF_FUNCS_REPO=<scratch worktree of /repo> builds dv-funcs against that tree instead of /repo.
 """
 import json
 import os
@@ -577,29 +583,55 @@ C36_FOLLOWER_DEV = ["HardStateSavedOnlyOnDrop", "Prev0ResetsFollowerLog", "Gappe
                     "EmptyAEAckReportsWholeLog", "FollowerCommitUsesWholeLog"]
 C36_TIER = {
     # scope -> how many of the enumerated cases are executed (None = all; else a seeded sample of that size)
-    "quick": dict(scopes=[("pairs-small", None), ("triples", 6000)], workers=8),
+    "quick": dict(scopes=[("pairs-small", 6000), ("triples", 3000)], workers=8),
     "thorough": dict(scopes=[("pairs", None), ("triples-full", 60000)], workers=12),
 }
 
 
-def c36_enumerate(wd, scope, workers):
-    cfg = os.path.join(wd, "MergeAE-%s.cfg" % scope)
-    consts = {"Dev": dv.tla_set(C36_FOLLOWER_DEV), "Scope": json.dumps(scope), "FTerm": 2}
+def _c36_cfg(wd, scope, dev, invariants, tag):
+    cfg = os.path.join(wd, "MergeAE-%s-%s.cfg" % (scope, tag))
+    lines = ["SPECIFICATION Spec", "CONSTANTS", "  Dev = " + dv.tla_set(dev), "  Scope = " + json.dumps(scope), "  FTerm = 2"]
     for k in ("FLogs", "FCommits", "MaxMerges", "LTerms", "Terms", "Prevs", "Shapes", "MinQ", "MaxQ", "Lcs"):
-        consts[k] = None
-    lines = ["SPECIFICATION Spec", "CONSTANTS"]
-    for k, v in consts.items():
-        lines.append("  %s = %s" % (k, v) if v is not None else "  %s <- mc_%s" % (k, k))
-    lines += ["CHECK_DEADLOCK FALSE", "INVARIANT RepairedMergeTransparent", "INVARIANT Emit"]
+        lines.append("  %s <- mc_%s" % (k, k))
+    lines += ["CHECK_DEADLOCK FALSE"] + ["INVARIANT " + i for i in invariants]
     with open(cfg, "w") as f:
         f.write("\n".join(lines) + "\n")
-    st, raw = _tlc_cases("MC_merge", cfg, wd, workers, 2400)
+    return cfg
+
+
+def c36_enumerate(wd, scope, workers):
+    """Two TLC runs over the same case space (in parallel): (a) repaired design (Dev = {}, repaired merge step) must satisfy
+    the property on every case; (b) as-implemented follower + merge step: enumerator and oracle (CASE lines)."""
+    import threading
+    box = {}
+
+    def design():
+        try:
+            d = os.path.join(wd, "design-" + scope)
+            os.makedirs(d, exist_ok=True)
+            box["design"] = _tlc_cases("MC_merge", _c36_cfg(wd, scope, [], ["RepairedMergeTransparent"], "design"), d,
+                                       max(2, workers // 2), 2400)[0]
+        except Exception as e:      # noqa: BLE001
+            box["err"] = e
+    th = threading.Thread(target=design)
+    th.start()
+    try:
+        di = os.path.join(wd, "impl-" + scope)
+        os.makedirs(di, exist_ok=True)
+        st, raw = _tlc_cases("MC_merge", _c36_cfg(wd, scope, C36_FOLLOWER_DEV, ["Emit"], "impl"), di, workers, 2400)
+    finally:
+        th.join()
+    if "err" in box:
+        raise box["err"]
+    if box["design"]["distinct"] != st["distinct"]:
+        raise dv.ToolError("MergeAE.tla: design run and enumeration run differ in size")
+    st["design_secs"] = box["design"]["secs"]
     cases = []
     for ln in sorted(raw):
         t = ln.split(" ")
         if t[0] != "CASE":
             continue
-        if not (t[6] == "S" and t[10] == "M" and t[14] == "G"):
+        if not (t[6] == "S" and t[10] == "M" and t[14] == "G" and t[16] == "A"):
             raise dv.ToolError("MergeAE.tla: unexpected CASE line: " + ln)
         reqs = []
         for r in t[5].split(";"):
@@ -608,96 +640,50 @@ def c36_enumerate(wd, scope, workers):
         cases.append({"flog": t[1], "fcommit": int(t[2]), "fterm": int(t[3]), "mm": int(t[4]), "q": reqs,
                       "expS": {"log": t[7], "commit": int(t[8]), "acks": t[9].split(";")},
                       "expM": {"log": t[11], "commit": int(t[12]), "acks": t[13].split(";")},
-                      "groups": [int(x) for x in t[15].split(",")], "scope": scope})
+                      "groups": [int(x) for x in t[15].split(",")], "attr": [] if t[17] == "-" else t[17].split(","),
+                      "scope": scope})
     return st, cases
 
 
-def _idx(log):
-    return [] if log == "-" else [int(x.split(":")[0]) for x in log.split(",")]
-
-
-def _is_prefix(a, b):
-    la = [] if a == "-" else a.split(",")
-    lb = [] if b == "-" else b.split(",")
-    return la == lb[:len(la)]
-
-
-def _gapped(req):
-    ix = _idx(req["ents"])
-    return any(ix[j] != req["prev"] + 1 + j for j in range(len(ix)))
-
-
-def c36_causes(case, M, S):
-    """Differences between the merged run M and the one-at-a-time run S of the REAL code, as cause classes.
-    Every observable difference must be attributed to a specific cause; what cannot be attributed becomes an
-    'unexplained-*' cause (never listed as known)."""
-    q = case["q"]
-    causes = []
-    n = len(q)
-    ma, sa = M["acks"], S["acks"]
-    if len(ma) != n or len(sa) != n:
-        return ["response-missing-or-extra"]
-    mlast = max(_idx(M["log"]) or [0])
-    whole_reject = accept_after_gap = False
-    for j in range(n):
-        if ma[j] == sa[j]:
-            continue
-        mk, sk = ma[j].split(".")[0], sa[j].split(".")[0]
-        mbody, sbody = ma[j].split("@")[0], sa[j].split("@")[0]
-        same_as_earlier = [i for i in range(j) if ma[i] == ma[j]]
-        same_as_later = [k for k in range(j + 1, n) if ma[k] == ma[j]]
-        if mbody == sbody:
-            causes.append("unexplained-response-term")
-        elif mk == "ok" and sk == "ok":
-            mi, si = int(mbody.split(".")[1]), int(sbody.split(".")[1])
-            if mi > si and (same_as_later or same_as_earlier) and mi <= mlast:
-                causes.append("success-ack-carries-merged-last-index")
-            else:
-                causes.append("unexplained-success-ack")
-        elif mk == "conflict" and sk == "conflict":
-            if any(sa[i] == ma[j] for i in same_as_earlier):
-                causes.append("conflict-ack-of-first-merged-request")
-            else:
-                causes.append("unexplained-conflict-ack")
-        elif mk == "conflict" and sk == "ok":
-            if any(sa[i] == ma[j] for i in same_as_earlier):
-                causes.append("acceptable-request-rejected-with-first-merged-request")
-                whole_reject = True
-            else:
-                causes.append("unexplained-ack-kind")
-        elif mk == "ok" and sk == "conflict":
-            if same_as_earlier and any(_gapped(q[i]) for i in range(j)):
-                causes.append("request-behind-gapped-entries-acknowledged")
-                accept_after_gap = True
-            else:
-                causes.append("unexplained-ack-kind")
-        else:
-            causes.append("unexplained-ack-kind")
-    if M["log"] != S["log"]:
-        if whole_reject and _is_prefix(M["log"], S["log"]):
-            pass        # consequence of the rejected group
-        elif accept_after_gap and _is_prefix(S["log"], M["log"]):
-            pass        # consequence of the accepted group
-        else:
-            causes.append("unexplained-log-difference")
-    if M["commit"] != S["commit"]:
-        lcs = [r["lc"] for r in q]
-        out_of_order = any(lcs[i] > lcs[j] for i in range(n) for j in range(i + 1, n))
-        if M["commit"] < S["commit"]:
-            if not whole_reject:
-                causes.append("unexplained-lower-commit")
-        elif accept_after_gap and M["commit"] <= min(max(lcs), mlast):
-            pass
-        elif out_of_order and M["commit"] <= min(max(lcs), mlast):
-            causes.append("commit-from-earlier-higher-leader-commit")
-        else:
-            causes.append("unexplained-higher-commit")
-    if M.get("term") != S.get("term"):
-        causes.append("unexplained-term-difference")
-    return sorted(set(causes))
-
-
+C36_ATTR_CLASS = {
+    "MergeOneAckForAll": "one-response-for-all-merged-senders",
+    "MergeIgnoresCommitOrder": "max-leader-commit-of-out-of-order-queue",
+    "MergeWithoutLegalityCheck": "merged-before-first-request-is-checked",
+    "MergeKeyedOnCount": "merge-keyed-on-entry-count",
+}
 C36_SITE = "d-engine-core/src/raft.rs Raft::merge_append_entries / role_state.rs handle_append_entries_request_workflow"
+
+
+def _c36_out(x):
+    return (x["log"], x["commit"], list(x["acks"]))
+
+
+def c36_severity(M, S, case=None):
+    """What differs between the merged and the one-at-a-time run (worst first)."""
+    if M["log"] != S["log"] or M["commit"] != S["commit"]:
+        return "log-or-commit-differs"
+    if len(M["acks"]) != len(S["acks"]) or any(a.split(".")[0] != b.split(".")[0] for a, b in zip(M["acks"], S["acks"])):
+        return "ack-kind-differs"
+    def last(log):
+        return max([0] + ([] if log == "-" else [int(x.split(":")[0]) for x in log.split(",")]))
+    hi = max([last(M["log"])] + ([last(case["flog"])] + [last(r["ents"]) for r in case["q"]] if case else []))
+    for a, b in zip(M["acks"], S["acks"]):
+        if a != b and a.startswith("ok.") and int(a.split(".")[1]) > hi:
+            return "ack-match-beyond-follower-log"
+    return "ack-values-differ"
+
+
+def c36_cause(case, M, S):
+    """Cause class of a difference between the two REAL runs. The difference is attributed to named deviations of the
+    merge step only if both real runs behave exactly as MergeAE.tla / DECore.tla (as implemented) predict for this case;
+    the attribution (which single deviation's repair restores the one-at-a-time outcome) is then the spec's. Any
+    difference the as-implemented spec does not predict exactly is 'unmodelled' and can never be a listed finding."""
+    if _c36_out(M) == _c36_out(S):
+        return None
+    if _c36_out(M) != _c36_out(case["expM"]) or _c36_out(S) != _c36_out(case["expS"]):
+        return "unmodelled-difference"
+    attr = case.get("attr") or []
+    return C36_ATTR_CLASS[attr[0]] if attr else "several-deviations-combined"
 
 
 def c36_judge(cases, results):
@@ -709,18 +695,19 @@ def c36_judge(cases, results):
         if r is None:
             raise dv.ToolError("dv-funcs merge: no result for case %d" % c["id"])
         M, S = r["M"], r["S"]
-        for tag, exp, got in (("S", c["expS"], S), ("M", c["expM"], M)):
-            if not (exp["log"] == got["log"] and exp["commit"] == got["commit"]
-                    and exp["acks"] == [a.split("@")[0] for a in got["acks"]]):
-                cnt["div_" + tag] += 1
+        if _c36_out(S) != _c36_out(c["expS"]):
+            cnt["div_S"] += 1
+        if _c36_out(M) != _c36_out(c["expM"]):
+            cnt["div_M"] += 1
         if any(g > 1 for g in c["groups"]):
             cnt["merged_groups"] += 1
-        causes = c36_causes(c, M, S)
-        if not causes:
+        cause = c36_cause(c, M, S)
+        if cause is None:
             cnt["same_outcome"] += 1
-        for cause in causes:
+        else:
             viol.append({"p": "C36", "m": "MergeTransparent", "cause": cause, "site": C36_SITE,
-                         "case": {k: c[k] for k in ("flog", "fcommit", "fterm", "mm", "q")},
+                         "severity": c36_severity(M, S, c),
+                         "case": {k: c[k] for k in ("flog", "fcommit", "fterm", "mm", "q", "expS", "expM", "attr", "groups")},
                          "merged": M, "one_at_a_time": S, "id": c["id"]})
     return viol, cnt
 
@@ -741,8 +728,23 @@ def check_c36(tier):
     _build()
     states = transitions = 0
     allcases, mc = [], []
+    import threading
+    enum = {}
+
+    def _enum(scope):
+        try:
+            enum[scope] = c36_enumerate(wd, scope, max(2, T["workers"] // len(T["scopes"])))
+        except Exception as e:      # noqa: BLE001
+            enum[scope] = e
+    ths = [threading.Thread(target=_enum, args=(sc,)) for sc, _ in T["scopes"]]
+    for th in ths:
+        th.start()
+    for th in ths:
+        th.join()
     for scope, sample in T["scopes"]:
-        st, cases = c36_enumerate(wd, scope, T["workers"])
+        if isinstance(enum[scope], Exception):
+            raise enum[scope]
+        st, cases = enum[scope]
         states += st["distinct"]
         transitions += st["generated"]
         enumerated = len(cases)
@@ -767,7 +769,8 @@ def check_c36(tier):
         replay_paths.append(dv.save_replay("C36", {"engine": "funcs", "property": "C36", "case": v["case"], "violation": v}))
     bycause = {}
     for v in viol:
-        bycause[v["cause"]] = bycause.get(v["cause"], 0) + 1
+        k = v["cause"] + " / " + v["severity"]
+        bycause[k] = bycause.get(k, 0) + 1
     merged = [c for c in allcases if any(g > 1 for g in c["groups"])]
     cov = {
         "states": states, "transitions": transitions, "traces_validated_against_impl": 2 * len(results),
@@ -781,12 +784,13 @@ def check_c36(tier):
                 "responses; non-trivial = the merge step joins at least two requests of the queue",
         "model_checking": mc, "cases_with_identical_outcome": cnt["same_outcome"],
         "differences_by_cause": bycause,
-        "conformance_divergences": {"one_at_a_time_vs_DECore": cnt["div_S"], "merged_vs_MergeAE": cnt["div_M"]},
+        "conformance_divergences": {k: v for k, v in (("one_at_a_time_vs_DECore", cnt["div_S"]), ("merged_vs_MergeAE", cnt["div_M"])) if v},
         "tlc_secs": sum(m["secs"] for m in mc), "harness_secs": round(hsecs, 1),
         "known_findings_hit": sorted({"%s/%s/%s" % (k["property"], k["monitor"], k["cause"]) for k, _ in known_hits}),
         "exhaustive": all(m["cases_enumerated"] == m["cases_executed"] for m in mc),
     }
     level = "model_checking" if not (cnt["div_S"] or cnt["div_M"]) else "exploration"
+    cov["differences_predicted_by_spec"] = sum(1 for c in allcases if _c36_out(c["expM"]) != _c36_out(c["expS"]))
     dv.write_evidence("C36", tier, level, cov,
                       ["the follower operator is DECore's (as implemented); the repaired merge step of MergeAE.tla satisfies the property "
                        "on every enumerated case (checked by TLC in the same run)",
@@ -805,8 +809,6 @@ def replay_c36(path):
     _build()
     c = dict(payload["case"])
     c["id"] = 1
-    c["groups"] = []
-    c["expS"] = c["expM"] = {"log": "", "commit": -1, "acks": []}
     results, _ = c36_run(wd, [c], "replay")
     viol, cnt = c36_judge([c], results)
     for v in viol:
@@ -817,16 +819,183 @@ def replay_c36(path):
 
 
 # =============================================================================================
+# C13  ReadRoute.tla
+# =============================================================================================
+C13_SITE = {"grpc": "d-engine-server/src/network/grpc/grpc_raft_service.rs handle_client_read (fast path) -> StandaloneReadHandle / read_actor.rs",
+            "embedded": "d-engine-server/src/api/embedded_read_handle.rs EmbeddedReadHandle::get_batch",
+            "raft": "d-engine-core/src/raft_role/role_state.rs push_client_cmd / leader_state.rs determine_read_policy"}
+
+
+def c13_enumerate(wd):
+    cfg_d = os.path.join(wd, "ReadRoute-design.cfg")
+    dv.write_cfg(cfg_d, constants={"Dev": "{}"}, invariants=["NonLeaderNeverServesStrongReads", "OverrideFlagEnforced"])
+    std, _ = _tlc_cases("ReadRoute", cfg_d, wd, 2, 600)
+    cfg_i = os.path.join(wd, "ReadRoute-impl.cfg")
+    dv.write_cfg(cfg_i, constants={"Dev": dv.tla_set(["FastPathIgnoresOverrideFlag"])}, invariants=["Emit"])
+    st, lines = _tlc_cases("ReadRoute", cfg_i, wd, 2, 600)
+    cases = []
+    for i, ln in enumerate(sorted(lines)):
+        t = ln.split(" ")
+        if not (t[0] == "CASE" and t[8] == "D" and t[11] == "I"):
+            raise dv.ToolError("ReadRoute.tla: unexpected line " + ln)
+        cases.append({"id": i + 1, "path": t[1], "role": t[2], "dflt": t[3], "allow": t[4] == "allow", "req": t[5],
+                      "lease": t[6], "quorum": t[7], "design": {"eff": t[9], "out": t[10]},
+                      "impl": {"eff": t[12], "out": t[13]}, "broken": [] if t[14] == "-" else t[14].split(",")})
+    if len(cases) != st["distinct"] or std["distinct"] != st["distinct"]:
+        raise dv.ToolError("ReadRoute.tla: %d CASE lines for %d / %d states" % (len(cases), st["distinct"], std["distinct"]))
+    st["secs"] += std["secs"]
+    return st, cases
+
+
+def c13_judge(cases, results):
+    """A violation is an executed case in which the real node ANSWERED FROM ITS LOCAL STATE although the property
+    requires something else: (1) non-leader, effective policy linearizable/lease; (2) overrides disallowed and the
+    server default would not have served (NotLeader on a non-leader, or a quorum round that cannot complete on the
+    leader).  Only the 'served although it must not be' direction is judged on the real-time server paths; on the
+    deterministic Raft-command path every difference from the design outcome under a disallowed override counts."""
+    byid = {r["id"]: r for r in results}
+    viol, div = [], []
+    cnt = {"driven": 0, "not_driven": 0, "setup_failed": 0, "as_design": 0}
+    for c in cases:
+        r = byid.get(c["id"])
+        if r is None:
+            raise dv.ToolError("dv-funcs route: no result for case %d" % c["id"])
+        o = r["outcome"]
+        if o == "not-driven":
+            cnt["not_driven"] += 1
+            continue
+        if o in ("setup-failed", "role-changed", "error"):
+            cnt["setup_failed"] += 1
+            continue
+        cnt["driven"] += 1
+        eff = c["design"]["eff"]
+        want = c["design"]["out"]
+        broken = []
+        if not c["allow"] and o != want and (o == "served" or c["path"] == "raft"):
+            broken.append("override-flag-ignored")
+        elif c["role"] != "L" and eff in ("lin", "lease") and o == "served":
+            # (with a disallowed override the same observation is reported once, under the override monitor)
+            broken.append("non-leader-serves-strong-read")
+        if o == want:
+            cnt["as_design"] += 1
+        if o != c["impl"]["out"]:
+            div.append({"id": c["id"], "case": {k: c[k] for k in ("path", "role", "dflt", "allow", "req", "lease", "quorum")},
+                        "spec_as_implemented": c["impl"]["out"], "observed": o})
+        for b in broken:
+            if b == "non-leader-serves-strong-read":
+                cause = "non-leader-serves-%s-read-requested-as-%s" % (eff, c["req"])
+            else:
+                cause = "client-%s-request-served-although-override-disabled" % c["req"]
+            viol.append({"p": "C13", "m": "NonLeaderNeverServesStrongReads" if b.startswith("non-leader") else "OverrideFlagEnforced",
+                         "cause": cause + "/" + c["path"], "site": C13_SITE[c["path"]],
+                         "case": {k: c[k] for k in ("path", "role", "dflt", "allow", "req", "lease", "quorum")},
+                         "required": c["design"], "observed": o, "detail": r.get("detail", "")[:200], "id": c["id"]})
+    return viol, div, cnt
+
+
+def c13_run(wd, cases):
+    cp = os.path.join(wd, "route-cases.ndjson")
+    with open(cp, "w") as f:
+        for c in cases:
+            f.write(json.dumps({k: c[k] for k in ("id", "path", "role", "dflt", "allow", "req", "lease", "quorum")}) + "\n")
+    return _run_bin("route", cp, os.path.join(wd, "route-results.ndjson"), os.path.join(wd, "scratch"), timeout=900)
+
+
+def check_c13(tier):
+    t0 = time.time()
+    wd = dv.workdir("funcs-C13")
+    _build()
+    st, cases = c13_enumerate(wd)
+    rounds = 1 if tier == "quick" else 3
+    viol, div = [], []
+    total = {"driven": 0, "not_driven": 0, "setup_failed": 0, "as_design": 0}
+    hsecs = 0
+    for _ in range(rounds):
+        results, dt = c13_run(wd, cases)
+        hsecs += dt
+        v, d, cnt = c13_judge(cases, results)
+        viol += v
+        div += d
+        for k in total:
+            total[k] += cnt[k]
+    if total["driven"] < rounds * len(cases) // 2:
+        raise dv.ToolError("C13: only %d of %d cases could be driven (%d set-ups failed)"
+                           % (total["driven"], rounds * len(cases), total["setup_failed"]))
+    known_hits, new = dv.classify("C13", viol, known=_known())
+    replay_paths, seen = [], set()
+    for v in new:
+        if (v["m"], v["cause"]) in seen:
+            continue
+        seen.add((v["m"], v["cause"]))
+        replay_paths.append(dv.save_replay("C13", {"engine": "funcs", "property": "C13", "case": v["case"], "violation": v}))
+    divsum = {}
+    for d in div:
+        k = "%s: spec=%s observed=%s" % (d["case"]["path"], d["spec_as_implemented"], d["observed"])
+        divsum[k] = divsum.get(k, 0) + 1
+    nontrivial = [c for c in cases if (not c["allow"] and c["req"] not in ("none", c["dflt"])) or
+                  (c["role"] != "L" and c["design"]["eff"] != "ev")]
+    cov = {
+        "states": st["distinct"], "transitions": st["generated"], "traces_validated_against_impl": total["driven"],
+        "samples": [{k: c[k] for k in ("path", "role", "dflt", "allow", "req", "lease", "quorum", "design", "impl")}
+                    for c in nontrivial[::max(1, len(nontrivial) // 3)][:3]],
+        "evaluations": total["driven"], "distinct_nontrivial": len(nontrivial),
+        "rule": "one case = (path, role, server default, allow_client_override, requested policy, lease valid?, quorum reachable?) of "
+                "ReadRoute.tla, all enumerated by TLC; path raft: ClientCmd::Read into real simulated nodes (leader, follower, "
+                "candidate, learner; leader with fresh lease + reachable quorum / fresh lease + undelivered quorum traffic / expired "
+                "lease); paths embedded and grpc: real 3-node loopback cluster per server configuration, leader and follower, quorum "
+                "made unreachable by stopping both followers; observation = served / notleader / pending; non-trivial = the override "
+                "flag or the non-leader rule decides the outcome (client policy differs from the default under a disallowed "
+                "override, or a non-leader with a strong effective policy)",
+        "cases": len(cases), "rounds": rounds, "cases_not_driven": total["not_driven"] // rounds,
+        "setups_failed_or_role_changed": total["setup_failed"], "outcome_as_design": total["as_design"],
+        "tlc_secs": st["secs"], "harness_secs": round(hsecs, 1),
+        "conformance_divergences": divsum,
+        "known_findings_hit": sorted({"%s/%s/%s" % (k["property"], k["monitor"], k["cause"]) for k, _ in known_hits}),
+        "exhaustive": total["not_driven"] == 0,
+    }
+    dv.write_evidence("C13", tier, "model_checking" if not divsum else "exploration", cov,
+                      ["the policy actually used is observed through the outcome class only; on a leader linearizable and lease reads "
+                       "have the same outcome (a valid lease also serves linearizable reads), so 'lease served instead of the "
+                       "linearizable default' is not observable and not judged",
+                       "candidate and learner roles are driven on the Raft command path only; the server paths use leader and follower",
+                       "server paths run in real time on 127.0.0.1; only 'answered from local state although it must not be' is judged there"],
+                      time.time() - t0, len(new))
+    rc = dv.finish("C13", known_hits, new, replay_paths)
+    shutil.rmtree(wd, ignore_errors=True)
+    return rc
+
+
+def replay_c13(path):
+    with open(path) as f:
+        payload = json.load(f)
+    wd = dv.workdir("funcs-replay-C13")
+    _build()
+    st, cases = c13_enumerate(wd)
+    want = payload["case"]
+    # the whole server configuration of the case is re-run (the cluster is set up per configuration)
+    cases = [c for c in cases if c["path"] == want["path"] and c["dflt"] == want["dflt"] and c["allow"] == want["allow"]]
+    results, _ = c13_run(wd, cases)
+    viol, div, cnt = c13_judge(cases, results)
+    viol = [v for v in viol if v["case"] == want]
+    for v in viol:
+        print("reproduced:", json.dumps(v))
+    known_hits, new = dv.classify("C13", viol, known=_known())
+    shutil.rmtree(wd, ignore_errors=True)
+    return dv.finish("C13", known_hits, new, [path] if new else [])
+
+
+# =============================================================================================
 # registry
 # =============================================================================================
-_CHECK = {"C34": check_c34, "C37": check_c37, "C35": check_c35, "C36": check_c36}
-_REPLAY = {"C34": replay_c34, "C37": replay_c37, "C35": replay_c35, "C36": replay_c36}
+_CHECK = {"C34": check_c34, "C37": check_c37, "C35": check_c35, "C36": check_c36, "C13": check_c13}
+_REPLAY = {"C34": replay_c34, "C37": replay_c37, "C35": replay_c35, "C36": replay_c36, "C13": replay_c13}
 
 PROPS = {
     "C34": dict(spec="Config.tla", sub="config"),
     "C37": dict(spec="ClientCodec.tla", sub="codec"),
     "C35": dict(spec="ClientCodec.tla", sub="mget"),
     "C36": dict(spec="MergeAE.tla", sub="merge"),
+    "C13": dict(spec="ReadRoute.tla", sub="route"),
 }
 
 MANIFEST_INFO = {
@@ -840,6 +1009,47 @@ MANIFEST_INFO = {
              "RaftConfig::validate and RaftNodeConfig::validate, and evaluates the predicate on the concrete numbers "
              "with u128 arithmetic; a configuration accepted by the real code with a false predicate is a violation.",
         note=_NOTE, ref="DESIGN.md section 3 (C34), design_parts/funcs.md"),
+    "C37": dict(
+        technique="TLA+/TLC exhaustive enumeration of ClientCodec.tla (client operation -> wire/log encoding -> apply command), "
+                  "every case submitted through the real clients to a real single-node engine",
+        category="model_checking",
+        text="client writes are applied as submitted: TLC enumerates put / put-with-TTL / delete / CAS over boundary classes "
+             "(empty, 0xFF and long keys, empty values, absent / empty / present CAS expectation, TTL 0, 1, u64::MAX) on the embedded "
+             "and the gRPC path, checks Decode(Encode(op)) = Meaning(op) on the as-implemented pipeline and emits each case; dv-funcs "
+             "submits it with the real EmbeddedClient / GrpcClient to a real single-node EmbeddedEngine (production NodeBuilder, Raft "
+             "loop, gRPC service) and compares the Command the state machine receives at apply_chunk with the expected one.",
+        note=_NOTE, ref="DESIGN.md section 3 (C37), design_parts/funcs.md"),
+    "C35": dict(
+        technique="TLA+/TLC exhaustive enumeration of ClientCodec.tla (multi-get reference result, sparse server result + client "
+                  "realignment), every case read through the real clients from a real single-node engine",
+        category="model_checking",
+        text="multi-key reads are aligned: TLC enumerates every assignment absent / empty / value of 3 keys and every key list of "
+             "length <= 3 (quick) / 4 (thorough) including duplicates and missing keys, checks that the sparse-result + realign-by-key "
+             "pipeline equals result[k] = state[keys[k]], and emits each case; dv-funcs establishes the state with client writes on a "
+             "real single-node engine (File, thorough also RocksDB state machine) and reads the list through the embedded client "
+             "(default, linearizable, lease, eventual) and the GrpcClient over the loopback gRPC service (same four).",
+        note=_NOTE, ref="DESIGN.md section 3 (C35), design_parts/funcs.md"),
+    "C36": dict(
+        technique="TLA+/TLC enumeration of MergeAE.tla (merge step + DECore follower operator: merged vs one-at-a-time), every "
+                  "executed case run on two identically prepared real followers",
+        category="model_checking",
+        text="merging queued AppendEntries: TLC enumerates follower logs (<= 4 entries) x queues of <= 3 consecutive requests "
+             "(heartbeat / 1 / 2 / gapped entries; contiguous, overlapping, repeated, gapped; terms 2-3; rising / falling leader "
+             "commit; merge limit 2-3), checks that the repaired merge step is transparent, and emits the predicted outcome of both "
+             "runs of the as-implemented step; dv-funcs feeds the queue to a real follower in one verif_inbound call (real "
+             "merge_append_entries + workflow) and to a second one request per call, and compares log, commit index and every "
+             "sender's response strictly; a difference is attributed to a named merge deviation only if both real runs match the "
+             "spec's as-implemented prediction exactly.",
+        note=_NOTE + "; quick executes a seeded sample of the enumerated cases", ref="DESIGN.md section 3 (C36), design_parts/funcs.md"),
+    "C13": dict(
+        technique="TLA+/TLC exhaustive enumeration of ReadRoute.tla (read routing decision table), every case executed on real nodes",
+        category="model_checking",
+        text="read policy routing: TLC enumerates (path, role, server default, allow_client_override, requested policy, lease valid, "
+             "quorum reachable), checks both sentences of the property on the design table and emits design and as-implemented "
+             "outcome; dv-funcs drives the Raft command path on real simulated nodes of all four roles and the embedded / gRPC read "
+             "paths on a real 3-node loopback cluster (leader and follower; quorum made unreachable by stopping the followers) and "
+             "observes served / notleader / pending.",
+        note=_NOTE + "; the policy used is observed through the outcome class only", ref="DESIGN.md section 3 (C13), design_parts/funcs.md"),
 }
 
 
